@@ -18,6 +18,7 @@ EXES = ["m_drv"]
 GEN = False
 THEOREMS = ["mutex_inv", "writes_by_holder", "wire_well_bracketed", "edt_adjacent", "edt_adjacent_drivers",
             "lock_free_at_end", "release_on_raise_or_cancel", "caller_programs_wf", "progress_partial",
+            "progress_up", "progress", "caller_steps_bounded", "nobody_hangs",
             "k1_witness_old_serial_send"]
 TRUSTED = ["hand-written models Model/Async.lean (interleaving semantics) and Model/CallerProgram.lean "
            "(send / run_sequence of the four drivers as straight-line programs with their finally/async-with "
@@ -26,12 +27,18 @@ TRUSTED = ["hand-written models Model/Async.lean (interleaving semantics) and Mo
            "CPython asyncio: Lock/Semaphore mutual exclusion and FIFO hand-over (also asserted on every trace)"]
 ASSUMPTIONS = ["callers use send() / run_sequence() only (no caller holds transaction_lock itself and issues "
                "concurrent send(in_transaction=True) calls)",
-               "progress: the gateway confirms/answers every write and the device stays connected"]
+               "progress / nobody_hangs: hypotheses `s.conn.up` (connected is set) and `GatewayAnswers s` (the report "
+               "each waiting caller waits for is the next one in its queue) - stated in the theorems, not proved of "
+               "any gateway"]
 PARTIAL = ("The theorems quantify over every schedule of the MODEL and any number of callers; that the real event loop "
            "produces only interleavings the model allows is validated on the explored schedules, not proved. The model "
            "cannot exhibit: the real event loop's scheduling order, OS file-descriptor behaviour, wall-clock time, "
-           "pyserial. progress is proved as deadlock-freedom of the two locks plus a decreasing measure "
-           "(progress_partial); the gateway's liveness is an assumption, not modelled.")
+           "pyserial. progress is proved in four parts: no cycle on the two locks (progress_partial); with `connected` set "
+           "the only thing that can block the caller whose turn it is is a wait for a gateway report (progress_up); "
+           "under the explicit hypothesis GatewayAnswers some caller step is enabled and decreases the measure "
+           "(progress), a quiescent state has no unfinished caller (nobody_hangs), and no fault-free schedule has "
+           "more caller steps than the measure (caller_steps_bounded). The gateway's liveness itself is a "
+           "hypothesis, not modelled; a fair scheduler is assumed for 'every caller completes'.")
 LEVEL_TEXT = ("Lean 4 theorems over an abstract interleaving semantics (any number of tasks, every schedule, environment "
               "events anywhere): at most one task inside its acq..rel region and it is the lock holder (mutex_inv), "
               "every frame is written by the holder (writes_by_holder), the lock/wire log replays against a one-holder "
@@ -39,7 +46,9 @@ LEVEL_TEXT = ("Lean 4 theorems over an abstract interleaving semantics (any numb
               "device type is immediately preceded on the wire by the same caller's EnableDeviceType (edt_adjacent), "
               "all resources free when every caller has finished, also after exceptions and cancellation "
               "(lock_free_at_end, release_on_raise_or_cancel); the programs of send/run_sequence of all four drivers "
-              "satisfy the static bracketing discipline for every command and every sequence (caller_programs_wf). "
+              "satisfy the static bracketing discipline for every command and every sequence (caller_programs_wf); with "
+              "the connection up and the gateway answering, an unfinished caller can always step and the number of "
+              "remaining caller steps strictly decreases (progress, caller_steps_bounded, nobody_hangs). "
               "Bound to the real drivers by trace validation.")
 LEVEL_NOTE = ("partial: proof about the model for all schedules; model-to-code tie is trace validation over explored "
               "schedules (DFS on small configurations, seeded random otherwise) plus direct assertions on the real objects.")
